@@ -522,10 +522,22 @@ def install(w):
         items[lo:hi] = out
     w.sort_generic = s_sort_generic
 
+    def ord_cmp(ex, x, y):
+        """three-way comparison honouring a crate `impl Ord` (e.g. compare by timestamp only)"""
+        xv = deref(x)
+        if isinstance(xv, (Agg, Enum)) and not (isinstance(xv, Agg) and xv.kind in ('tuple', 'array')):
+            f = ex.find_impl('Ord', xv.base, 'cmp')
+            if f is not None:
+                return ex.call_function(f, [Ref([xv], 0, False), Ref([deref(y)], 0, False)]).idx
+        return values_cmp(ex, x, y)
+    w.ord_cmp = ord_cmp
+
     def s_sort(ex, c, a):
         items, lo, hi, _ = seq(a[0])
-        s_sort_generic(ex, items, lo, hi, lambda x, y: values_cmp(ex, x, y))
+        s_sort_generic(ex, items, lo, hi, lambda x, y: ord_cmp(ex, x, y))
         return unit()
+    M['sort_with_vec'] = s_sort
+    M['glidesort::sort_with_vec'] = s_sort
 
     def s_sort_by(ex, c, a):
         items, lo, hi, _ = seq(a[0])
